@@ -612,6 +612,106 @@ theorem down_calibration (v : KView) (tf pf : Nat) (htf : 0 < tf) (hpf : 0 < pf)
   simp only [this, ↓reduceIte, hu, KView.pixelsPerLine, down_shape _ _ _ hpf, true_and]
   intro h; simp [KView.ranges, h]
 
+/-! ## Down-sampling: the sum over the whole block -/
+
+/-- photon counts of the pixels `k ≤ c < k + t` of a row, added up -/
+def winSum (k t : Nat) (r : List Pix) : Int := (((r.drop k).take t).map (·.v)).sum
+
+theorem sum_append_int (a b : List Int) : (a ++ b).sum = a.sum + b.sum := by
+  induction a with
+  | nil => simp
+  | cons x xs ih => simp [ih]; omega
+
+theorem foldl_add_v (ps : List Pix) (p : Pix) : (ps.foldl Pix.add p).v = p.v + (ps.map (·.v)).sum := by
+  induction ps generalizing p with
+  | nil => simp
+  | cons q qs ih => simp [ih, Pix.add]; omega
+
+theorem sumPix_v (l : List Pix) : (sumPix l).v = (l.map (·.v)).sum := by
+  cases l with
+  | nil => rfl
+  | cons p ps => simp [sumPix, foldl_add_v]
+
+theorem sum_zipWith_add (a b : List Pix) (h : a.length = b.length) :
+    ((List.zipWith Pix.add a b).map (·.v)).sum = (a.map (·.v)).sum + (b.map (·.v)).sum := by
+  induction a generalizing b with
+  | nil => cases b with
+    | nil => simp
+    | cons y ys => simp at h
+  | cons x xs ih =>
+    cases b with
+    | nil => simp at h
+    | cons y ys =>
+      have := ih ys (by simpa using h)
+      simp only [List.zipWith_cons_cons, List.map_cons, List.sum_cons, this, Pix.add]
+      omega
+
+theorem winSum_zipWith (k t : Nat) (a b : List Pix) (h : a.length = b.length) :
+    winSum k t (List.zipWith Pix.add a b) = winSum k t a + winSum k t b := by
+  unfold winSum
+  rw [List.drop_zipWith, List.take_zipWith]
+  apply sum_zipWith_add
+  simp [h]
+
+theorem foldl_zipWith_spec (k t n : Nat) (rs : List (List Pix)) (hr : Rect rs n) (acc : List Pix) (ha : acc.length = n) :
+    (rs.foldl (fun acc x => List.zipWith Pix.add acc x) acc).length = n ∧
+    winSum k t (rs.foldl (fun acc x => List.zipWith Pix.add acc x) acc) = winSum k t acc + (rs.map (winSum k t)).sum := by
+  induction rs generalizing acc with
+  | nil => simp [ha]
+  | cons x xs ih =>
+    have hx : x.length = n := hr x (by simp)
+    have hl : (List.zipWith Pix.add acc x).length = n := by simp [ha, hx]
+    have := ih (fun r hrm => hr r (by simp [hrm])) (List.zipWith Pix.add acc x) hl
+    simp only [List.foldl_cons, List.map_cons, List.sum_cons]
+    refine ⟨this.1, ?_⟩
+    rw [this.2, winSum_zipWith k t acc x (by omega)]
+    omega
+
+theorem block2d_sum (band : List (List Pix)) (tf j : Nat) :
+    ((block2d band tf j).map (·.v)).sum = (band.map (winSum (j * tf) tf)).sum := by
+  unfold block2d
+  induction band with
+  | nil => simp
+  | cons r rs ih => simp only [List.flatMap_cons, List.map_append, sum_append_int, ih, List.map_cons, List.sum_cons]; rfl
+
+/-- **Binning adds up exactly the pixels of the block.**  On a rectangular image with `n` lines, row `i` of the
+    down-sampled image has `⌊n / tf⌋` entries and entry `j` holds the sum of the photon counts of ALL pixels of the
+    two-dimensional block — source rows `i·pf … i·pf + pf − 1` × lines `j·tf … j·tf + tf − 1` — although the code adds
+    the rows of a band first and then the lines (specification: a plain sum over the block, as for `down_with_entry`). -/
+theorem down_entry_sum (img : Img) (n : Nat) (hr : Rect img n) (pf tf : Nat) (hpf : 0 < pf) (htf : 0 < tf) (i : Nat)
+    (hi : i < (blockReduce img pf tf).length) :
+    ((blockReduce img pf tf)[i]).length = n / tf ∧
+    ∀ j (hj : j < ((blockReduce img pf tf)[i]).length),
+      (((blockReduce img pf tf)[i])[j]).v = ((block2d ((img.drop (i * pf)).take pf) tf j).map (·.v)).sum := by
+  have hi' : i < img.length / pf := by rw [← down_shape img pf tf hpf]; exact hi
+  obtain ⟨hrow, hchunk⟩ := down_entry img pf tf hpf htf i hi
+  -- the band of source rows
+  have hmul : i * pf + pf ≤ img.length := by
+    have := Nat.div_mul_le_self img.length pf
+    have : (i + 1) * pf ≤ img.length / pf * pf := Nat.mul_le_mul_right pf (by omega)
+    rw [Nat.add_mul] at this; omega
+  have hbl : ((img.drop (i * pf)).take pf).length = pf := by simp; omega
+  have hbr : Rect ((img.drop (i * pf)).take pf) n := fun r hrm => hr r (List.mem_of_mem_drop (List.mem_of_mem_take hrm))
+  generalize hband : (img.drop (i * pf)).take pf = band at *
+  cases band with
+  | nil => simp at hbl; omega
+  | cons r0 rs =>
+    have h0 : r0.length = n := hbr r0 (by simp)
+    have hrs : Rect rs n := fun r hrm => hbr r (by simp [hrm])
+    have hlen : (addRows (r0 :: rs)).length = n := (foldl_zipWith_spec 0 0 n rs hrs r0 h0).1
+    have hcl : (chunks tf (addRows (r0 :: rs))).length = n / tf := by rw [chunks_length tf htf, hlen]
+    constructor
+    · rw [hrow, List.length_map, hcl]
+    · intro j hj
+      have hj' : j < (chunks tf (addRows (r0 :: rs))).length := by
+        rw [hrow, List.length_map] at hj; exact hj
+      have e : ((blockReduce img pf tf)[i])[j] = sumPix ((chunks tf (addRows (r0 :: rs)))[j]) := by
+        simp only [hrow, List.getElem_map]
+      rw [e, hchunk j hj', sumPix_v, block2d_sum]
+      have := (foldl_zipWith_spec (j * tf) tf n rs hrs r0 h0).2
+      simp only [List.map_cons, List.sum_cons]
+      exact this
+
 /-! ## Recalibration -/
 
 theorem kbp_pixelsize (v : KView) (len : Rat) (hu : v.unit ≠ 1) (hp : v.pixelsPerLine ≠ 0) :
